@@ -11,7 +11,7 @@ from concurrent.futures import ThreadPoolExecutor
 
 VERIF = os.path.dirname(os.path.dirname(os.path.abspath(__file__)))
 REPO = os.environ.get("VERIF_REPO", "/repo")
-BUILD_ROOT = os.path.join(VERIF, "build")
+BUILD_ROOT = os.environ.get("VERIF_BUILD_DIR") or os.path.join(VERIF, "build")
 
 COMMON_SRCS = ["myth_log.c", "myth_sched.c", "myth_internal_barrier.c", "myth_bind_worker.c", "myth_worker.c",
                "myth_sync.c", "myth_init.c", "myth_misc.c", "myth_tls.c", "myth_thread.c", "myth_context.c",
